@@ -508,3 +508,32 @@ def r16(ctx):
 
 
 RULES.append(("C03.R16", "T2-loop", "the fragment ends at the first event that does not fit (oldest first)", r16))
+
+
+def r17(ctx):
+    """'released only by the confirmation of the response that carried it': each fragment of a solicited series is confirmed under its
+    own sequence number - the next fragment carries series.ecsn AFTER the increment (C11.R4, shared code); reusing the old number lets a
+    repeated confirm of fragment n release the events of fragment n+1."""
+    import c11
+    c11.r4(ctx)
+
+
+RULES.append(("C03.R17", "T2", "each fragment of a series has its own confirm sequence number (shared with C11.R4)", r17))
+
+
+def r18(ctx):
+    """'every event is offered': a READ with a count limit selects the first N MATCHING events - in EventBuffer::select the limit
+    (`take`) is applied to the filtered iterator, not in front of the filter (which would bound how many records are looked at)."""
+    prog = ctx.prog
+    bd = prog.body("event::buffer::EventBuffer::select")
+    sym = ctx.sym(bd)
+    tk = call_sites(bd, r"Iterator::take$|::take$")
+    fl = call_sites(bd, r"Iterator::filter$|::filter$")
+    if len(tk) != 1 or len(fl) != 1:
+        raise AnchorError("EventBuffer::select: take %d filter %d" % (len(tk), len(fl)))
+    te = sym.call_expr(tk[0].term)
+    fe = sym.call_expr(fl[0].term)
+    ctx.check(mentions_call(te[2][0], r"::filter$") and not mentions_call(fe[2][0], r"::take$"), "select:limit-after-filter", "take(limit) is applied to the filtered records", bd.where(tk[0].idx), bad_detail="EventBuffer::select applies the count limit before the filter: events queued behind `limit` older records of another class / type are never offered to a limited READ")
+
+
+RULES.append(("C03.R18", "T6", "a READ count limit bounds the matching events, not the records examined", r18))
